@@ -663,6 +663,38 @@ def isItem (decl : List FieldDecl) (data : Data) (i : String) : Bool :=
 def failsAlone (W : World) (fuel : Nat) (decl : List FieldDecl) (o : Opts) (data : Data) (i : String) : Bool :=
   isItem decl data i && isError (run W fuel (declOf decl i) .ff o (dataOf data i))
 
+/-- `parse_data` as `parse_params` calls it: the names in `ex` were already taken from positional arguments -/
+def runX (W : World) (fuel : Nat) (decl : List FieldDecl) (ex : List String) (m : Mode) (o : Opts) (data : Data) :
+    Res Data :=
+  (andThen (parseData (parse W fuel) decl ex (clean0 m o) data) finish).2
+
+def failsAloneX (W : World) (fuel : Nat) (decl : List FieldDecl) (ex : List String) (o : Opts) (data : Data)
+    (i : String) : Bool :=
+  isItem decl data i && isError (runX W fuel (declOf decl i) ex .ff o (dataOf data i))
+
+/-- the parameters a call gives by position -/
+def givenPos (sg : Sig) (args : List Val) : List String :=
+  ((sg.decl.take sg.npos).take args.length).map (·.name)
+
+/-- one element of `*args` as a field of its own: its type, dropped / kept / reported by `invalid_items` -/
+def varField (sg : Sig) (o : Opts) : FieldDecl :=
+  { name := "*args", ty := sg.posTy, required := false, default := none, onError := some o.invalidItems }
+
+/-- the item a positional argument stands for when it fails on its own: the parameter it is bound to, parsed
+alone by keyword, or `*args:j`, parsed alone against the `*args` type -/
+def posFailing (W : World) (fuel : Nat) (sg : Sig) (o : Opts) (it : Val × Nat) : Option String :=
+  if sg.hasVar && it.2 ≥ sg.npos then
+    if isError (run W fuel [varField sg o] .ff o [("*args", it.1)]) then some ("*args:" ++ toString it.2) else none
+  else
+    match (sg.decl.take sg.npos)[it.2]? with
+    | none => none
+    | some f => if isError (run W fuel [f] .ff o [(f.name, it.1)]) then some f.name else none
+
+/-- "item `i` of the call fails on its own" -/
+def callFails (W : World) (fuel : Nat) (sg : Sig) (o : Opts) (args : List Val) (kwargs : Data) (i : String) : Bool :=
+  args.zipIdx.any (fun it => posFailing W fuel sg o it == some i) ||
+  failsAloneX W fuel sg.decl (givenPos sg args) o kwargs i
+
 /-- the items a raised exception names -/
 def Exc.items : Exc → List (Option String)
   | .raw e => [e.item]
